@@ -20,7 +20,7 @@ def bytesStr (bs : List Byte) : String :=
 def obsVar (st : State) (v : Nat) : String :=
   match contents st v, terminator st v, st.getBuf v with
   | some c, some t, some b =>
-    s!"{c.length} {bytesStr c} {if b.buffer.isSome then 1 else 0} " ++
+    s!"{c.length} {bytesStr c} {if b.owning then 1 else 0} " ++
       (match t with | some x => byteStr x | none => "-")
   | _, _, _ => "FAULT"
 
